@@ -1,7 +1,7 @@
 (** Protocol operations for the extra check X02 (tree.String, tree.DepthFirst), see Lib/Val.v.
 
     A tree travels as   node = [uid, x<id>, x<info>, leaf, [[label, node], ...]]
-      leaf  = [] (not a leaf) | [[0]] nil | [[1,z]] int | [[2,x<bytes>]] string | [[3,b]] bool
+      leaf  = [] (not a leaf) | [[0]] nil | [[1,z]] int | [[2,x<bytes>]] string | [[3,b]] bool | [[4,[z,...]]] []int
       label = [] (nil label) | [x<text>]
     uid must be the pre-order number of the node (0 for the root).  harness/x02.go builds a Go implementation of
     tree.Tree from the same text ([rose_tree] of Spec/TreeSpec.v mirrors it).
@@ -28,6 +28,7 @@ Definition dec_leaf (v : val) : option (option lval) :=
   | VL [VL [VZ 1; VZ z]] => Some (Some (LInt z))
   | VL [VL [VZ 2; s]] => match dec_bytes s with Some s => Some (Some (LStr s)) | None => None end
   | VL [VL [VZ 3; VZ b]] => Some (Some (LBool (negb (b =? 0))))
+  | VL [VL [VZ 4; l]] => match as_zs l with Some l => Some (Some (LInts l)) | None => None end
   | _ => None
   end.
 
